@@ -77,7 +77,11 @@ def run_module(argv):
     """`python -m emsarray ...` in a fresh interpreter: (exit status, stderr)"""
     import subprocess
     import sys
-    r = subprocess.run([sys.executable, '-W', 'ignore', '-m', 'emsarray'] + list(argv), capture_output=True, text=True, timeout=300)
+    # (dask's synchronous scheduler, as in harness/run.py: netCDF4 / HDF5 are not thread safe in this sandbox and emsarray
+    # reassembles clipped datasets with open_mfdataset(lock=False))
+    env = dict(os.environ, DASK_SCHEDULER='synchronous')
+    r = subprocess.run([sys.executable, '-W', 'ignore', '-m', 'emsarray'] + list(argv), capture_output=True, text=True, timeout=300,
+                       env=env)
     return r.returncode, r.stderr
 
 
@@ -304,6 +308,22 @@ def run(ctx):
                     ctx.report('property', f'python -m emsarray export-geometry: status {mcode}, output '
                                f'{"differs from" if os.path.exists(mout) else "missing, unlike"} the library output: {merr[-200:]}',
                                {'dataset': label, 'command': ['python', '-m', 'emsarray', 'export-geometry', '<in>', 'mod.wkt']})
+                # points outside the model, in numbers that are multiples of 256 (a process exit status has eight bits)
+                if n == 0:
+                    for nmiss in ((256,) if quick else (256, 512, 255)):
+                        mcsv = os.path.join(tmp, f'mod_miss_{nmiss}.csv')
+                        with open(mcsv, 'w') as fh:
+                            fx = max(x for r_ in rings for x, y in r_) + 5.0
+                            fy = max(y for r_ in rings for x, y in r_) + 5.0
+                            fh.write('lon,lat\n' + ''.join(f'{fx + k},{fy}\n' for k in range(nmiss)))
+                        mo = os.path.join(tmp, f'mod_miss_{nmiss}.nc')
+                        mcode, merr = run_module(['extract-points', src, mcsv, mo])
+                        ctx.case((label, 'module', 'misses', nmiss), True)
+                        ctx.count('python -m emsarray: points outside the model')
+                        if mcode == 0 or os.path.exists(mo):
+                            ctx.report('property', f'python -m emsarray extract-points with {nmiss} points outside the model ended with '
+                                       f'status {mcode}{" and left an output file" if os.path.exists(mo) else ""}',
+                                       {'dataset': label, 'misses': nmiss})
                 mcode, merr = run_module(['clip', src, '1,2,3,4,5', os.path.join(tmp, f'mod_bad_{n}.nc')])
                 ctx.case((label, 'module', 'failure'), True)
                 if mcode == 0 or os.path.exists(os.path.join(tmp, f'mod_bad_{n}.nc')):
